@@ -1299,7 +1299,10 @@ func (t *Tree) Compile(file string, args []string, out io.Writer) (err error) {
 		printRule(element)
 		_print(" */")
 		if count, ok := t.rulesCount[element.String()]; !ok {
-			t.warn(fmt.Errorf("rule '%v' defined but not used", element))
+			// the rule generated for an action inside an unused rule is not a rule of the grammar
+			if expression.Front().GetType() != TypeAction {
+				t.warn(fmt.Errorf("rule '%v' defined but not used", element))
+			}
 			_print("\n  nil,")
 			continue
 		} else if t.inline && count == 1 && ko != 0 {
